@@ -22,6 +22,15 @@ CHECKS = {
  "C13": ("fault_enumeration", "4/C13", "runtime monitoring: equality oracle between accepted relayed messages and the packet as announced by its source, under the full port/relay alteration matrix (proofs rebuilt for the altered route)",
          "For committed packets the port and relay-chain alterations (each other port, relay removed/added/replaced with the proof rebuilt from the chain the altered message is verified against) are submitted in receive and acknowledgement messages on source, relay, destination and third chains. The property is violated by design of the commitment; the four alteration classes are recorded known findings.",
          "The tree violates this property (known findings F-C13-*); the check reports any acceptance outside the recorded classes."),
+ "C12": ("exploration", "4/C12", "runtime monitoring: differential oracle (field-wise reference matcher vs the real routing keeper) over generated rule sets and triples",
+         "10^5-10^6 (rule list, triple) pairs over the identifier alphabet biased to regex metacharacters and to triples that a regex reading of the rule would also match; SetRoutingRules acceptance and Authenticate are compared with a reference written from the statement; also through MsgSetRoutingRules.",
+         "The reference model (harness/model/routing.go) is the statement; keeper runs on a branched context of a real chain."),
+ "C14": ("exploration", "4/C14", "runtime monitoring: reference status oracle on real client stores for the three client types + expired-client scenarios on real chains",
+         "Status() of Tendermint/BSC/ETH clients evaluated on 10^4-10^6 (timestamp, period, block time) triples around the boundary with all sub-second classes; on real chains updates/receives/acks/receive-cleans with genuine proofs through an expired Tendermint client must be refused and through an active one accepted.",
+         "age == period is not judged (the statement says older than / inside). BSC/ETH packet paths through expired clients are exercised in C08's world, not here."),
+ "C19": ("fault_enumeration", "4/C19", "runtime monitoring: KV-diff oracle under boundary fault injection (gas-limit sweep = abort at successive store accesses, multi-message late failure, crafted late-failing packets)",
+         "Every TIBC message kind is delivered under a gas sweep (hundreds of abort points per kind), in multi-message transactions with a late failure and as crafted late-failing packets; every failed transaction must leave tibc/NFT/nft/mt untouched and every error-acknowledged receive must leave ownership/balances/supplies untouched with exactly receipt+ack written.",
+         "Trusts BaseApp's branch-and-discard; the sweep granularity (gas step) bounds which store accesses become abort points."),
 }
 PENDING = {
 }
